@@ -12,7 +12,7 @@ ANCHORS = ["pyoma2.functions.fdd:SD_PreGER", "pyoma2.functions.fdd:SD_est", "pyo
 REQUIRED_MONITORS = ["one-recording@SD_PreGER", "one-recording@FDD_MS", "one-recording@EFDD_MS", "one-recording@pLSCF_MS",
                      "general-blocks@SD_PreGER", "gain-metamorphic@SD_PreGER"]
 ALL_STATES = [f"{m}|pov={p:g}" for m in ("per", "cor") for p in (0, 0.25, 0.5, 0.75)] + ["refs listed out of order", "4 setups", "3 references"]
-REQUIRED_STATES = ["per|pov=0", "per|pov=0.25", "per|pov=0.75", "cor|pov=0.25", "refs listed out of order", "recording amplitude < 1e-4", "one setup with gain < 1e-3", "identical reference records except in a middle setup", "second recording analysed with the same settings"]
+REQUIRED_STATES = ["per|pov=0", "per|pov=0.25", "per|pov=0.75", "cor|pov=0.25", "refs listed out of order", "recording amplitude < 1e-4", "one setup with gain < 1e-3", "identical reference records except in a middle setup", "second recording analysed with the same settings", "estimator left at the documented default"]
 RULE = ("one coloured-noise recording (2..9 channels, >= 4 segments) cut into 2..4 setups sharing 1..3 references at arbitrary positions; "
         "merged matrix compared line by line with SD_est(all channels in [ref|rov_1|rov_2..] order, ref) at the same nxseg/pov/estimator "
         "(tolerance 1e-9*cond(G_refref), lines with cond > 1e8 not judged); independent recordings: blocks recomputed from per-setup SD_est; "
@@ -95,7 +95,19 @@ def run_one_fn(ctx, rng):
             ctx.state("recording amplitude < 1e-4")
     datasets = [X[cg].T.copy() for cg in chan_glob]
     Y = G_.pre_multisetup(datasets, [list(r) for r in reflist])
-    f, S = fdd.SD_PreGER(Y, fs=fs, nxseg=nx, pov=pov, method=method)
+    if method == "per" and rng.random() < 0.5:
+        f, S = fdd.SD_PreGER(Y, fs=fs, nxseg=nx, pov=pov)  # the estimator left at its documented default (the periodogram)
+        ctx.state("estimator left at the documented default")
+    else:
+        f, S = fdd.SD_PreGER(Y, fs=fs, nxseg=nx, pov=pov, method=method)
+    # history: what a caller does with the returned arrays (here: the axis converted to rad/s in place) is his own business
+    f_keep = np.array(f, copy=True)
+    f *= 2 * np.pi
+    f_again, S_again = fdd.SD_PreGER(Y, fs=fs, nxseg=nx, pov=pov, method=method)
+    ctx.ev("returned arrays are the caller's")
+    ctx.check(np.array_equal(f_again, f_keep) and np.array_equal(S_again, S), "fn_one:result_depends_on_what_was_done_with_an_earlier_result",
+              "the frequency axis returned by a second identical call follows an in-place change made to the axis returned by the first call")
+    f = f_keep
     rows = order_all(nref, chan_glob, reflist)
     f2, E = fdd.SD_est(X[rows], X[:nref], 1 / fs, nx, method=method, pov=pov)
     ctx.ev("one-recording@SD_PreGER")
